@@ -20,6 +20,7 @@ EXPLANATION = (
     "only with a proven model, starts at the lower bound); (R3) its k-range reaches len(numbers)+1 (witness numbers=[3], total=10); (R4) a "
     "parameter whose default is None is never subscripted without a None test or a normalisation in the constructor; (R5) complement "
     "removal drops `total - x` only under a *strict* comparison with x (a value equal to half the total is not its own complement).  "
+    " (R6) with multiplicities the products x*g and the integer product helper are bounded by max(total, numbers), and (R1, extended) the bit expansion of the multiplicity is sized from max_multiplicity (integer_ub), not from the product bound. "
     "NOT decided: minimality; that complement removal preserves the optimum."
 )
 DECIDED = ["formulation of both models", "search protocol and range of MinGenSet", "documented None defaults are usable", "complement removal is strict"]
